@@ -99,7 +99,8 @@ def drive(tdgl, a):
 def options(tdgl, a, output_file):
     o = dict(solve_time=a["solve_time"], skip_time=a.get("skip_time", 0.0), dt_init=a.get("dt", 2.0 ** -6),
              dt_max=a.get("dt_max", 0.1), adaptive=a.get("adaptive", False), adaptive_window=a.get("window", 3),
-             save_every=a.get("k", 1), progress_interval=a.get("progress", 10 ** 9), pause_on_interrupt=False,
+             save_every=a.get("k", 1), progress_interval=a.get("progress", 10 ** 9), pause_on_interrupt=a.get("pause", False),
+             monitor=a.get("monitor", False), monitor_update_interval=0.01,
              output_file=output_file, include_screening=a.get("screening", False), field_units="mT", current_units="uA",
              terminal_psi=a.get("terminal_psi", 0.0), screening_tolerance=a.get("screening_tol", 1e-3))
     return tdgl.SolverOptions(**o)
@@ -113,6 +114,18 @@ def solve_frames(tdgl, a, tmp):
     if a.get("threads"):
         import numba
         numba.set_num_threads(a["threads"])
+    from tdgl.solver import runner as _runner_mod
+    _real_popen = _runner_mod.subprocess.Popen
+    launched = []
+    if a.get("monitor"):
+        # monitor=True is one more way of observing a run: the live-monitor process is not started here (it would
+        # need a display); everything the solver does for it (SWMR channel, environment variable) is real
+        def _no_monitor(cmd, *args, **kw):
+            if isinstance(cmd, (list, tuple)) and "tdgl.visualize" in [str(c) for c in cmd]:
+                launched.append([str(c) for c in cmd])
+                return None
+            return _real_popen(cmd, *args, **kw)
+        _runner_mod.subprocess.Popen = _no_monitor
     try:
         os.chdir(work)
         tempfile.tempdir = work
@@ -188,8 +201,9 @@ def solve_frames(tdgl, a, tmp):
             after = frame_hash_of_solution(prev_seed)
             frames.append({"idx": -1, "step": -1, "time": "seed", "hash": before, "piece": n, "seed_before": True})
             frames.append({"idx": -1, "step": -1, "time": "seed", "hash": after, "piece": n, "seed_after": True})
-        return {"args": a, "frames": frames, "mesh": mesh}
+        return {"args": a, "frames": frames, "mesh": mesh, "monitor_launched": len(launched)}
     finally:
+        _runner_mod.subprocess.Popen = _real_popen
         tempfile.tempdir = old_tempdir
         os.chdir(cwd)
         shutil.rmtree(work, ignore_errors=True)
